@@ -14,6 +14,8 @@
 #endif
 #ifdef H_openFromResp
 #include "net.c"
+#endif
+#if defined(H_openFromResp) || defined(H_openFromSig)
 #include "contracts/signature_builder_open.h"
 #endif
 #include "signature_builder.c"
@@ -59,6 +61,20 @@ void harness(void) {
 	if (res == KSI_OK && g_b_al_len > 2 && s_resp.chains != NULL) REACH("builder opened, several aggregation chains");
 	if (res == KSI_SERVICE_UPSTREAM_TIMEOUT) REACH("status 0x301 converted");
 	if (res == KSI_SERVICE_UNKNOWN_ERROR) REACH("unknown status converted");
+	if (res == KSI_OK) { KSI_SignatureBuilder_free(out); }
+}
+#endif
+
+#ifdef H_openFromSig
+void harness(void) {
+	static struct KSI_SignatureBuilder_st prev;
+	KSI_SignatureBuilder *out = nondet_bool() ? &prev : NULL;
+	int res;
+	memset(&g_b, 0, sizeof(g_b)); memset(&g_bl, 0, sizeof(g_bl)); c07b_init_lists();
+	s_sig.ctx = &s_ctx; s_sig.baseTlv = nondet_ptr(); s_sig.calendarChain = nondet_ptr();
+	res = KSI_SignatureBuilder_openFromSignature(nondet_bool() ? &s_sig : NULL, nondet_bool() ? &out : NULL);
+	if (res == KSI_OK) REACH("builder holds a clone");
+	if (res != KSI_OK && g_b.clone_calls == 1) REACH("clone failed");
 	if (res == KSI_OK) { KSI_SignatureBuilder_free(out); }
 }
 #endif
